@@ -323,7 +323,7 @@ pub fn text_field_cases(reg: &Registry, entries: &[(&str, &[u8])]) -> Vec<RCase>
                     continue;
                 }
                 for col in 0..ncols.min(16) {
-                    for op in 0..7 {
+                    for op in (0..7).chain(10..mutate::TEXT_OPS) {
                         out.push(RCase::seeded(s.entry, &s.name, vec![Mut::Text { line: li as u16, col: col as u16, sep: *sep, op }]));
                     }
                 }
@@ -435,4 +435,49 @@ pub fn blob_strategy(reg: &'static Registry, max: usize) -> BoxedStrategy<RCase>
         c
     })
     .boxed()
+}
+
+// ------------------------------------------------------------------------------------------------
+// growth: the same well-formed structure at full and at half size
+// ------------------------------------------------------------------------------------------------
+
+/// Work that grows faster than the input: a case that needs at least a second of CPU at full size and more than
+/// 3.2 times what the same structure needs at half size (linear work doubles, quadratic work quadruples). Cases
+/// below one second are not judged - timing noise dominates there, and they are far inside the budget anyway.
+#[derive(Clone, Debug, Serialize, Deserialize)]
+pub struct GrowthCase {
+    pub full: RCase,
+    pub half: RCase,
+}
+
+pub fn growth_cases(full: Vec<RCase>, half: Vec<RCase>) -> Vec<GrowthCase> {
+    assert_eq!(full.len(), half.len());
+    full.into_iter().zip(half).map(|(full, half)| GrowthCase { full, half }).collect()
+}
+
+pub fn run_growth(reg: &Registry, c: &GrowthCase, ctx: &Ctx) -> PResult {
+    let mut cpu = [0u64; 2];
+    for (k, case) in [&c.half, &c.full].into_iter().enumerate() {
+        let m = materialise(reg, case)?;
+        let req = Request { entry: &case.entry, reps: 1, args: m.args.iter().map(|a| a.as_slice()).collect() };
+        let (out, st) = worker::exec(&req);
+        if let Outcome::Infra(e) = &out {
+            ctx.infra(&format!("worker: {} (entry {})", e, case.entry));
+            return Ok(());
+        }
+        if let Some(b) = verdict(&case.entry, &out, &st) {
+            // the budgets themselves are judged by the scale part; here only report what that part would
+            set_case_detail(serde_json::to_value(case).unwrap_or(serde_json::Value::Null));
+            return Err(Failure { slug: b.slug, msg: b.detail });
+        }
+        cpu[k] = st.cpu_us;
+    }
+    let (half, full) = (cpu[0].max(1), cpu[1]);
+    ctx.classf(format!("growth/{}/{}", c.full.entry, if full < 1_000_000 { "full-size-below-1s:not-judged" } else { "judged" }));
+    ctx.nontrivial_hash(fnv64(c.full.note.as_bytes()) ^ fnv64(c.full.entry.as_bytes()));
+    if full >= 1_000_000 && full as f64 > 3.2 * half as f64 {
+        set_case_detail(serde_json::to_value(&c.full).unwrap_or(serde_json::Value::Null));
+        return Err(Failure { slug: format!("{}|superlinear", c.full.entry), msg: format!("{}: {:.2} s of CPU at full size, {:.2} s at half size ({:.1} times as much for twice the input)", c.full.note, full as f64 / 1e6, half as f64 / 1e6, full as f64 / half as f64) });
+    }
+    Ok(())
 }
